@@ -17,7 +17,7 @@ var c16ops = []string{"RA", "RB", "RE", "RL1", "RL2", "RL3", "D", "LT", "WH", "R
 func c16cfgA() map[string]string {
 	return map[string]string{
 		"appender.ra.type": "VRec", "appender.rah.type": "VRec",
-		"logger.la.type": "Logger", "logger.la.tags": "c16tag", "logger.la.appenderRef.ref": "ra",
+		"logger.la.type": "Logger", "logger.la.tags": "c16tag", "logger.la.appenderRef.ref": "ra", "logger.la.level": "INFO",
 		"logger.h1.type": "Logger", "logger.h1.tags": "c16unused_a", "logger.h1.appenderRef.ref": "rah",
 		"logger.h2.type": "Logger", "logger.h2.tags": "c16unused_b", "logger.h2.appenderRef.ref": "rah",
 		"enableCaller": "true", "bufferCap": "8KB",
@@ -131,9 +131,12 @@ func (rn *c16run) exec(ops []string, fresh bool) (string, string) {
 			e := c16exp{id: id, step: step, op: op, wantC: -1}
 			switch live {
 			case "none":
-				e.sink = "console"
+				e.sink = "console" // every level: nothing of an earlier configuration (such as A's level) may linger
 			case "A":
 				e.sink, e.wantC = "ra", 1
+				if lv.Code() < log.InfoLevel.Code() {
+					e.sink = "nowhere" // A's logger starts at INFO
+				}
 			case "B":
 				e.sink, e.wantC = "rb", 0
 			}
@@ -213,6 +216,12 @@ func (rn *c16run) exec(ops []string, fresh bool) (string, string) {
 	for _, e := range exps {
 		g := got[e.id]
 		if e.sink == "" {
+			continue
+		}
+		if e.sink == "nowhere" {
+			if len(g) != 0 {
+				return fmt.Sprintf("step %d (%s): %s is below the live logger's level but was delivered to %s", e.step, e.op, e.id, g[0].Sink), "disabled-level-delivered"
+			}
 			continue
 		}
 		if len(g) != 1 || g[0].Sink != e.sink {
@@ -342,7 +351,7 @@ func c16Worker(w *W) {
 func init() {
 	register(&Prop{
 		ID: "C16", Level: "exploration", MinDistinct: 1000, Worker: c16Worker,
-		Rule: "operation sequences over the alphabet {Refresh valid A (sync, enableCaller on), Refresh valid B (async, enableCaller off), Refresh invalid-early (rejected before anything is touched), Refresh invalid-late x3 (unknown logger type; property failure after a sync / an async configuration was started and bound), Destroy, log via tag (level cycling), write via one of two named handles, register tag, obtain handles}: " +
+		Rule: "operation sequences over the alphabet {Refresh valid A (sync, level INFO, enableCaller on), Refresh valid B (async, enableCaller off), Refresh invalid-early (rejected before anything is touched), Refresh invalid-late x3 (unknown logger type; property failure after a sync / an async configuration was started and bound), Destroy, log via tag (level cycling), write via one of two named handles, register tag, obtain handles}: " +
 			"ALL sequences of length 1..5 (quick) / 1..6 (thorough) chained in-process from the state 'nothing live', sequences of length 5-8 sampled, and every sequence of length <= 2 (quick) / <= 3 (thorough) executed as the very first thing a fresh process does. " +
 			"Model: live in {none, A, B, limbo}; outcomes per statement (second Refresh rejected and live routing + enableCaller undisturbed, Destroy idempotent, registration refused while live/possible otherwise, output on the console when nothing is live, A/B routing incl. async after flush); in limbo only totality is judged. " +
 			"distinct_nontrivial = number of distinct sequences whose every step matched the model (enumerated sequences are distinct by construction; sampled ones are de-duplicated).",
